@@ -136,6 +136,14 @@ func c01Run(c c01Case, st *vlib.Stats) string {
 	if msg := CompareAll(eng, m, tr); msg != "" {
 		return "at the end of the history: " + msg
 	}
+	// the same again with every page written out and read back from the file
+	if err := eng.Flush(); err != nil {
+		return "final flush failed: " + err.Error()
+	}
+	eng.RS().VerifSetCacheSize(10000)
+	if msg := CompareAll(eng, m, tr); msg != "" {
+		return "at the end of the history, after flushing and reloading every page: " + msg
+	}
 	return ""
 }
 
